@@ -78,14 +78,35 @@ class SolverIR:
         ci = model.classes.get('Solver')
         if not ci:
             return out
+        def pure_decision(stmts):
+            # only tests, boolean assignments to solver fields, local bindings and returns: no loops, no calls as statements
+            for s_ in stmts:
+                if isinstance(s_, ast.If):
+                    if not (pure_decision(s_.body) and pure_decision(s_.orelse)):
+                        return False
+                elif isinstance(s_, (ast.Return, ast.Pass)):
+                    continue
+                elif isinstance(s_, ast.Expr) and isinstance(s_.value, ast.Constant):
+                    continue
+                elif isinstance(s_, ast.Assign) and len(s_.targets) == 1:
+                    t = s_.targets[0]
+                    if isinstance(t, ast.Name):
+                        continue
+                    if isinstance(t, ast.Attribute) and isinstance(t.value, ast.Name) and t.value.id == 'self' \
+                            and isinstance(s_.value, ast.Constant) and isinstance(s_.value.value, bool):
+                        continue
+                    return False
+                else:
+                    return False
+            return True
         for name, mem in ci.members.items():
             if name in ('run', '__init__'):
                 continue
-            for n in ast.walk(mem.node):
-                if isinstance(n, ast.Assign) and isinstance(n.value, ast.Constant) and isinstance(n.value.value, bool) \
-                        and any(isinstance(t, ast.Attribute) and isinstance(t.value, ast.Name) and t.value.id == 'self'
-                                for t in n.targets):
-                    out.add(name)
+            sets_flag = any(isinstance(n, ast.Assign) and isinstance(n.value, ast.Constant) and isinstance(n.value.value, bool)
+                            and any(isinstance(t, ast.Attribute) and isinstance(t.value, ast.Name) and t.value.id == 'self' for t in n.targets)
+                            for n in ast.walk(mem.node))
+            if sets_flag and pure_decision(mem.node.body):
+                out.add(name)
         return out
 
     # ---- hooks
@@ -168,6 +189,92 @@ class SolverIR:
             return (Rat.const(0), self.n), v
         return None
 
+    # ---- general views of the element tuple: slices (step 1 or -1), reversed(), list()/tuple(), enumerate(), zip()
+    def _view(self, it, st, frame):
+        """{'first', 'count', 'dir', 'base'} for an expression denoting a run of consecutive elements of the element
+        tuple (position j in 0..count-1 is element first + dir*j), or None"""
+        one = Rat.const(1)
+        if isinstance(it, ast.Call) and isinstance(it.func, ast.Name) and it.func.id in ('list', 'tuple', 'iter') and len(it.args) == 1:
+            return self._view(it.args[0], st, frame)
+        if isinstance(it, ast.Call) and isinstance(it.func, ast.Name) and it.func.id == 'reversed' and len(it.args) == 1:
+            v = self._view(it.args[0], st, frame)
+            if v is None:
+                return None
+            return {'first': v['first'] + v['dir'] * (v['count'] - one), 'count': v['count'], 'dir': -v['dir'], 'base': v['base']}
+        if isinstance(it, ast.Subscript) and isinstance(it.slice, ast.Slice):
+            try:
+                base = self.sx.eval1(it.value, st, frame)
+            except CannotDecide:
+                return None
+            if not (is_elements(base) and '[' not in base.path):
+                return None
+            sl = it.slice
+
+            def ev(x):
+                v = self.sx.eval1(x, st, frame)
+                if not isinstance(v, N):
+                    raise CannotDecide('slice bound')
+                t = v.term
+                if t.is_const() and t.const_value() < 0:
+                    t = self.n + t
+                return t
+            step = 1
+            if sl.step is not None:
+                sv = self.sx.eval1(sl.step, st, frame)
+                if not (isinstance(sv, N) and sv.term.is_const() and sv.term.const_value() in (1, -1)):
+                    raise CannotDecide('slice with a step other than 1 or -1')
+                step = int(sv.term.const_value())
+            if step == 1:
+                lo = ev(sl.lower) if sl.lower is not None else Rat.const(0)
+                hi = ev(sl.upper) if sl.upper is not None else self.n
+                return {'first': lo, 'count': hi - lo, 'dir': one, 'base': base}
+            start = ev(sl.lower) if sl.lower is not None else self.n - one
+            stop = ev(sl.upper) if sl.upper is not None else Rat.const(-1)      # exclusive
+            return {'first': start, 'count': start - stop, 'dir': -one, 'base': base}
+        try:
+            v = self.sx.eval1(it, st, frame)
+        except CannotDecide:
+            return None
+        if is_elements(v) and '[' not in v.path:
+            return {'first': Rat.const(0), 'count': self.n, 'dir': one, 'base': v}
+        return None
+
+    def _iteration(self, it, target, st, frame):
+        """binding plan for `for target in it` over views: (views, enum_start or None, reversed_order) or None"""
+        rev = False
+        node = it
+        while isinstance(node, ast.Call) and isinstance(node.func, ast.Name) and node.func.id in ('list', 'tuple', 'reversed') and len(node.args) == 1:
+            inner = node.args[0]
+            if node.func.id == 'reversed':
+                # reversed() of a plain view is a view; reversed() of an enumerate/zip flips the iteration order
+                if self._view(node, st, frame) is not None:
+                    break
+                rev = not rev
+            elif self._view(node, st, frame) is not None:
+                break
+            node = inner
+        if isinstance(node, ast.Call) and isinstance(node.func, ast.Name) and node.func.id == 'enumerate' and node.args:
+            v = self._view(node.args[0], st, frame)
+            if v is None:
+                return None
+            start = Rat.const(0)
+            extra = list(node.args[1:]) + [k.value for k in node.keywords if k.arg == 'start']
+            if extra:
+                sv = self.sx.eval1(extra[0], st, frame)
+                if not isinstance(sv, N):
+                    return None
+                start = sv.term
+            return [v], start, rev
+        if isinstance(node, ast.Call) and isinstance(node.func, ast.Name) and node.func.id == 'zip' and node.args:
+            vs = [self._view(a, st, frame) for a in node.args]
+            if any(v is None for v in vs):
+                return None
+            return vs, None, rev
+        v = self._view(node, st, frame)
+        if v is None:
+            return None
+        return [v], None, rev
+
     def loop(self, sx, node: ast.For, st: State, frame):
         lid = next(_loop_ids)
         L = Loop(lid, node.lineno, frame['fn'].name, 'opaque', iter_text=ast.unparse(node.iter)[:120])
@@ -185,6 +292,48 @@ class SolverIR:
                 raise CannotDecide('range loop target')
             L.var = node.target.id
             env_binds[L.var] = N(idx_atom, 'int')
+        elif (plan := self._iteration(node.iter, node.target, st, frame)) is not None:
+            views, enum_start, flipped = plan
+            rev = False
+            one = Rat.const(1)
+            # zip stops at the shortest run: lengths that differ by a constant are truncated to the minimum
+            cmin = views[0]['count']
+            for v in views[1:]:
+                dlt = v['count'] - cmin
+                if not dlt.is_const():
+                    raise CannotDecide('zip of runs whose lengths are not comparable')
+                if dlt.const_value() < 0:
+                    cmin = v['count']
+            for v in views:
+                v['count'] = cmin
+            v0 = views[0]
+            for v in views[1:]:
+                if not (v['dir'] - v0['dir']).is_zero():
+                    raise CannotDecide('zip of runs in opposite directions')
+            d = v0['dir']
+            # the loop index is the element index of the first run; iteration order as written (or flipped by reversed(enumerate/zip))
+            lo, hi = v0['first'], v0['first'] + d * v0['count']
+            if flipped:
+                L.kind, L.start, L.stop, L.step = 'index', hi - d, lo - d, -d
+            else:
+                L.kind, L.start, L.stop, L.step = 'index', lo, hi, d
+            targets = []
+            if enum_start is not None:
+                if not (isinstance(node.target, ast.Tuple) and len(node.target.elts) == 2 and all(isinstance(e, ast.Name) for e in node.target.elts)):
+                    raise CannotDecide('enumerate target')
+                env_binds[node.target.elts[0].id] = N((idx_atom - v0['first']) * d + enum_start, 'int')
+                targets = [node.target.elts[1]]
+            elif len(views) == 1:
+                targets = [node.target]
+            else:
+                if not (isinstance(node.target, ast.Tuple) and len(node.target.elts) == len(views)):
+                    raise CannotDecide('zip target')
+                targets = list(node.target.elts)
+            for t, v in zip(targets, views):
+                if not isinstance(t, ast.Name):
+                    raise CannotDecide('loop target')
+                env_binds[t.id] = self.elem(v['base'], idx_atom + (v['first'] - v0['first']))
+            L.var = targets[0].id if targets else None
         elif isinstance(it, ast.Call) and isinstance(it.func, ast.Name) and it.func.id in ('zip', 'enumerate'):
             if it.func.id == 'enumerate':
                 r = self._seq_iter(it.args[0], st, frame)
@@ -347,15 +496,16 @@ def desugar_counting_while(fn):
     import copy
 
     def increment_of(stmt):
-        if isinstance(stmt, ast.AugAssign) and isinstance(stmt.op, ast.Add) and isinstance(stmt.target, ast.Name) \
+        """(name, +1 | -1) for `k += 1`, `k = k + 1`, `k -= 1`, `k = k - 1`"""
+        if isinstance(stmt, ast.AugAssign) and isinstance(stmt.op, (ast.Add, ast.Sub)) and isinstance(stmt.target, ast.Name) \
                 and isinstance(stmt.value, ast.Constant) and stmt.value.value == 1:
-            return stmt.target.id
+            return stmt.target.id, (1 if isinstance(stmt.op, ast.Add) else -1)
         if isinstance(stmt, ast.Assign) and len(stmt.targets) == 1 and isinstance(stmt.targets[0], ast.Name) \
-                and isinstance(stmt.value, ast.BinOp) and isinstance(stmt.value.op, ast.Add) \
+                and isinstance(stmt.value, ast.BinOp) and isinstance(stmt.value.op, (ast.Add, ast.Sub)) \
                 and isinstance(stmt.value.left, ast.Name) and stmt.value.left.id == stmt.targets[0].id \
                 and isinstance(stmt.value.right, ast.Constant) and stmt.value.right.value == 1:
-            return stmt.targets[0].id
-        return None
+            return stmt.targets[0].id, (1 if isinstance(stmt.value.op, ast.Add) else -1)
+        return None, 0
 
     def rewrite_block(stmts):
         out = []
@@ -368,10 +518,12 @@ def desugar_counting_while(fn):
                         setattr(s_, field, nb)
                         changed = True
             if isinstance(s_, ast.While) and not s_.orelse and s_.body and isinstance(s_.test, ast.Compare) and len(s_.test.ops) == 1 \
-                    and isinstance(s_.test.ops[0], (ast.LtE, ast.Lt)) and isinstance(s_.test.left, ast.Name):
+                    and isinstance(s_.test.ops[0], (ast.LtE, ast.Lt, ast.GtE, ast.Gt)) and isinstance(s_.test.left, ast.Name):
                 k = s_.test.left.id
                 body = s_.body
-                if increment_of(body[-1]) == k and out and isinstance(out[-1], ast.Assign) and len(out[-1].targets) == 1 \
+                inc_name, inc = increment_of(body[-1])
+                up = isinstance(s_.test.ops[0], (ast.LtE, ast.Lt))
+                if inc_name == k and inc == (1 if up else -1) and out and isinstance(out[-1], ast.Assign) and len(out[-1].targets) == 1 \
                         and isinstance(out[-1].targets[0], ast.Name) and out[-1].targets[0].id == k:
                     inner = body[:-1]
                     clean = not any(isinstance(x, ast.Continue) for b_ in inner for x in ast.walk(b_)) and \
@@ -382,7 +534,10 @@ def desugar_counting_while(fn):
                         stop = s_.test.comparators[0]
                         if isinstance(s_.test.ops[0], ast.LtE):
                             stop = ast.BinOp(left=stop, op=ast.Add(), right=ast.Constant(1))
-                        new = ast.For(target=ast.Name(k, ast.Store()), iter=ast.Call(func=ast.Name('range', ast.Load()), args=[start, stop], keywords=[]),
+                        if isinstance(s_.test.ops[0], ast.GtE):
+                            stop = ast.BinOp(left=stop, op=ast.Sub(), right=ast.Constant(1))
+                        rargs = [start, stop] if up else [start, stop, ast.UnaryOp(op=ast.USub(), operand=ast.Constant(1))]
+                        new = ast.For(target=ast.Name(k, ast.Store()), iter=ast.Call(func=ast.Name('range', ast.Load()), args=rargs, keywords=[]),
                                       body=inner or [ast.Pass()], orelse=[], type_comment=None)
                         out.append(ast.fix_missing_locations(ast.copy_location(new, s_)))
                         changed = True
